@@ -127,6 +127,9 @@ W_RetryDone  == ~(pc = "done" /\ rd.tries = 1 /\ op = "write" /\ Len(msg) >= Lon
 W_RetryCut   == ~(pc = "cut" /\ rd.tries = 1 /\ k > 0)
 W_FaultSel   == ~(pc = "failed" /\ \E p \in plans : p.cmds[k + 1].s = 1)
 W_FaultLen0  == ~(pc = "failed" /\ k = 0 /\ lay.old # Empty /\ op = "write")
+\* read -> format(wipe) -> write on one tag object, completed; a write that starts with the tag left in sector 1
+W_SessionDone == ~(pc = "done" /\ op = "write" /\ rd.tries = 1 /\ rd.nf = 0 /\ msg # <<>>)
+W_InSector1   == ~(pc = "done" /\ op = "write" /\ rd.tries = 0 /\ FreshReader(lay, lay.mem0).rsec > 0)
 W_FormatWipe == ~(pc = "done" /\ op = "format" /\ msg[1] < 256)
 W_Escape     == Confined
 W_NLayouts   == Cardinality(Layouts) < 0
